@@ -20,7 +20,7 @@ import (
 	"github.com/johnkerl/miller/v6/pkg/types"
 )
 
-const c05NVerbs = 10
+const c05NVerbs = 14
 
 func c05Verb(which int, k int64) RecordTransformer {
 	var tr RecordTransformer
@@ -44,8 +44,16 @@ func c05Verb(which int, k int64) RecordTransformer {
 		tr, err = NewTransformerDecimate(2, false, false, nil)
 	case 8:
 		tr, err = NewTransformerFillDown([]string{"g"}, false, true)
-	default:
+	case 9:
 		tr, err = NewTransformerCount([]string{"g"}, false, "count")
+	case 10: // verbs below are built from their real command lines
+		return verifVerb("repeat", "-n", "2")
+	case 11:
+		return verifVerb("count-similar", "-g", "g")
+	case 12:
+		return verifVerb("step", "-a", "shift,counter", "-f", "id")
+	default:
+		return verifVerb("fill-empty", "-v", "X")
 	}
 	verifAssert(err == nil && tr != nil, "C05/chain/verb-constructed")
 	return tr
@@ -93,7 +101,7 @@ func c05RunChain(verbs []RecordTransformer, recs []*types.RecordAndContext, cuts
 	var batch []*types.RecordAndContext
 	for i, r := range recs {
 		batch = append(batch, r)
-		if cuts[i] {
+		if i < len(cuts) && cuts[i] {
 			readerCh <- batch
 			batch = nil
 		}
